@@ -268,6 +268,24 @@ def run_history(ctx, script):
             except Exception as e:
                 res = "LinkError" if "Duplicate" in str(e) else "other:" + repr(e)
             S.ops.append({"op": "set", "node": cn, "name": "transport", "value": S.val(tr)})
+        elif kind == "oldtransport":
+            # a transport object that exists already: detached earlier, attached to this or to another client
+            ci = st["c"] % max(1, len(S.clients))
+            c, cn = S.clients[ci]
+            known = sorted(S.transports.values(), key=lambda x: x[1])
+            if not known:
+                steps_meta.append((st, start, "skipped", True))
+                observed.append("skip")
+                continue
+            tr = known[st.get("which", 0) % len(known)][2]
+            try:
+                if st.get("via") == "set_options":
+                    c.set_options(transport=tr)
+                else:
+                    c.options.transport = tr
+            except Exception as e:
+                res = "LinkError" if "Duplicate" in str(e) or "Already linked" in str(e) else "other:" + repr(e)
+            S.ops.append({"op": "set", "node": cn, "name": "transport", "value": S.val(tr)})
         elif kind == "clone":
             ci = st["c"] % max(1, len(S.clients))
             c, cn = S.clients[ci]
@@ -369,6 +387,8 @@ def gen_steps(rng, cnames, tnames, nclients):
         return {"k": "newtransport", "c": c, "via": rng.choice(["attr", "set_options"])}
     if r < 0.19:
         return {"k": "set", "c": c, "name": "transport", "value": None}
+    if r < 0.27:
+        return {"k": "oldtransport", "c": c, "which": rng.randrange(6), "via": rng.choice(["attr", "set_options"])}
     name = rng.choice(cnames + tnames + tnames + ["nosuch"])
     if name == "transport":
         return {"k": "newtransport", "c": c}
@@ -403,6 +423,8 @@ def run(ctx):
             atoms.append({"k": kind, "c": 0, "name": name, "value": v})
             atoms.append({"k": kind, "c": 1, "name": name, "value": v})
     atoms += [{"k": "clone", "c": 0}, {"k": "newtransport", "c": 0}, {"k": "newtransport", "c": 1},
+              {"k": "oldtransport", "c": 0, "which": 0}, {"k": "oldtransport", "c": 1, "which": 0},
+              {"k": "oldtransport", "c": 0, "which": 1},
               {"k": "set", "c": 0, "name": "transport", "value": None}]
     depth = ctx.pick(2, 3)
     count = 0
